@@ -198,7 +198,17 @@ func (g *Gen) tplScopeProbes() []L.Stmt {
 		body = append(body, local1(n, g.leaf([]Kind{KInt, KStr, KBool}[g.n(3, "dk")])))
 		if g.n(3, "endedscope") == 0 {
 			// an inner scope that has ended before the probe
-			body = append(body, &L.DoStmt{Body: blk(local1(g.fresh("gone"), num(1)), local1(g.fresh("gone"), str("x")))})
+			inner := []L.Stmt{local1(g.fresh("gone"), num(1)), local1(g.fresh("gone"), str("x"))}
+			if g.n(2, "innershadows") == 0 {
+				// the ended scope redeclared names that are still alive outside it (a local declared earlier, a parameter)
+				who := append([]string{"pa", "pb"}, names...)
+				inner = append(inner, local1(who[g.n(len(who), "shadowwho")], str("inner shadow")))
+				if g.n(2, "innershadow2") == 0 {
+					inner = append([]L.Stmt{local1(who[g.n(len(who), "shadowwho2")], str("inner shadow, first"))}, inner...)
+				}
+				g.class("scope:ended_scope_shadowed_live_name")
+			}
+			body = append(body, &L.DoStmt{Body: blk(inner...)})
 			g.class("scope:ended_inner_scope")
 		}
 	}
